@@ -30,6 +30,12 @@ pub struct HCase {
     pub crit: Crit,
     /// call the `DatasetBase<Kernel, T>` overload instead of the `Kernel` one
     pub via_dataset: bool,
+    /// order of the `HierarchicalCluster` builder calls (last call of a setter wins):
+    /// 0 method, criterion; 1 criterion, method; 2 decoy method, decoy criterion, method, criterion;
+    /// 3 decoy criterion, criterion, decoy method, method; 4 criterion, decoy method, method;
+    /// 5 criterion only when the linkage is the documented default (Average), else as 1
+    #[serde(default)]
+    pub order: u8,
 }
 
 fn to_kodama(l: Link) -> Method {
@@ -136,7 +142,7 @@ pub fn check_hier(c: &HCase, obs: &mut Obs) {
         obs.skip("kdtree_build_would_not_terminate");
         return;
     }
-    let Some((kernel, _)) = obs.call("build-kernel", || build(&x, &c.method, kind, CommonNearestNeighbour::KdTree, 0)) else { return };
+    let Some((kernel, _)) = obs.call("build-kernel", || build(&x, &c.method, kind, CommonNearestNeighbour::KdTree, 0, c.order)) else { return };
     // the similarity matrix *is* the input of the clustering: read it off the kernel object
     let sim = match densify(&kernel, n) {
         Ok((m, _)) => m,
@@ -164,15 +170,39 @@ pub fn check_hier(c: &HCase, obs: &mut Obs) {
     let agg = agglomerate(&d, c.link);
     let heights = sorted_unique(agg.merges.iter().map(|m| m.2).collect());
 
-    let params = HierarchicalCluster::<f64>::default().with_method(to_kodama(c.link));
-    let (params, theta, requested) = match &c.crit {
-        Crit::Num(q) => {
-            let req = 1 + idx(*q, n + 2);
-            (params.num_clusters(req), None, Some(req))
-        }
-        Crit::Dist(spec) => {
-            let t = derive_theta(spec, &pairwise, &heights);
-            (params.max_distance(t), Some(t), None)
+    let (theta, requested) = match &c.crit {
+        Crit::Num(q) => (None, Some(1 + idx(*q, n + 2))),
+        Crit::Dist(spec) => (Some(derive_theta(spec, &pairwise, &heights)), None),
+    };
+    let real_method = to_kodama(c.link);
+    let decoy_method = if c.link == Link::Single { Method::Complete } else { Method::Single };
+    let crit = |p: HierarchicalCluster<f64>| match (requested, theta) {
+        (Some(req), _) => p.num_clusters(req),
+        (None, Some(t)) => p.max_distance(t),
+        (None, None) => p,
+    };
+    // decoy criterion of the *other* kind, so that a criterion that is not overwritten shows
+    let decoy_crit = |p: HierarchicalCluster<f64>| if requested.is_some() { p.max_distance(0.5) } else { p.num_clusters(1) };
+    let start = HierarchicalCluster::<f64>::default();
+    let order = c.order % 6;
+    obs.class(match order {
+        0 => "builder_method_then_criterion",
+        1 => "builder_criterion_then_method",
+        2 | 3 | 4 => "builder_setter_called_twice",
+        _ => "builder_default_method_or_criterion_first",
+    });
+    let params = match order {
+        0 => crit(start.with_method(real_method)),
+        1 => crit(start).with_method(real_method),
+        2 => crit(decoy_crit(start.with_method(decoy_method)).with_method(real_method)),
+        3 => crit(decoy_crit(start)).with_method(decoy_method).with_method(real_method),
+        4 => crit(start).with_method(decoy_method).with_method(real_method),
+        _ => {
+            if c.link == Link::Average {
+                crit(start)
+            } else {
+                crit(start).with_method(real_method)
+            }
         }
     };
     let via = c.via_dataset;
